@@ -37,7 +37,7 @@ def scratch():
 
 # ----------------------------------------------------------------------------- build
 
-NEED_EXTRACT = {"opsrun", "kqrun", "diffrun"}
+NEED_EXTRACT = {"opsrun", "kqrun", "kqstress", "diffrun"}
 
 
 def build(cmd, race=False, tags="verif"):
@@ -391,6 +391,10 @@ def run_check(prop, tier, seed):
             if rc != 2 and plan.get("also_lin"):
                 import engine_lin
                 rc2 = engine_lin.run(prop, tier, seed, plan, merge=True)
+                rc = 2 if rc2 == 2 else max(rc, rc2)
+            if rc != 2 and plan.get("also_kqstress"):
+                import engine_kqstress
+                rc2 = engine_kqstress.run(prop, tier, seed)
                 rc = 2 if rc2 == 2 else max(rc, rc2)
             return rc
         mod = __import__("engine_" + plan["engine"])
